@@ -395,6 +395,36 @@ def _run(ctx):
                      'publicize rule %r unregistered or of another resource'
                      % rule, ctx.loc(f, c))
 
+    # the comparison `scope == 'public'` of the controllers decides on the
+    # value the client sent: what validate_scope lets through are exactly
+    # the literal scope values (no case folding / stripping in front of the
+    # membership test - 'PUBLIC' would pass the validation, skip the
+    # literal comparison and be stored as a public resource after any
+    # normalisation further down)
+    vs = prog.func('mistral.api.controllers.v2.resources.ScopedResource.validate_scope')
+    vcfg = ctx.cfg(vs)
+    P_ = vs.params[-1]
+    raises = [x for x in vcfg.nodes if x.kind == 'stmt' and
+              isinstance(x.ast, ast.Raise)]
+    okv = len(raises) == 1 and any(
+        isinstance(a, ast.Compare) and isinstance(a.ops[0], ast.In) and
+        isinstance(a.left, ast.Name) and a.left.id == P_ and not t and
+        norm(a.comparators[0]) == 'SCOPE_TYPES.values'
+        for a, t in U.guard_atoms(vcfg, raises[0])) and \
+        U.reaching_defs(vcfg, P_).get(raises[0].id, set()) <= {'param'} and \
+        not any(x.kind == 'stmt' and isinstance(x.ast, ast.Return)
+                for x in vcfg.nodes)
+    st = None
+    for x in ast.walk(prog.module('mistral.api.controllers.v2.resources')):
+        if isinstance(x, ast.Assign) and dotted(x.targets[0]) == 'SCOPE_TYPES':
+            st = [a.value for a in x.value.args[1:]
+                  if isinstance(a, ast.Constant)]
+    r4.check(okv and st is not None and sorted(st) == ['private', 'public'],
+             ctx.construct(vs, extra='exact scope values only'),
+             'validate_scope does not refuse everything but the literal '
+             'values private / public of the raw parameter (got %s)' % st,
+             ctx.loc(vs))
+
     # ---- R5 error mapping ------------------------------------------------
     r5 = ctx.rule('R5', 'every exposed method maps Mistral errors to their '
                   'http_code', 'EXH')
